@@ -1,9 +1,9 @@
 (* Extraction of the executable models to OCaml.  ExtrOcamlBasic only: bool, option, list, prod,
    unit, sumbool map to OCaml natives; nat/positive/N/Z stay the extracted inductives. *)
 From Coq Require Import Extraction ExtrOcamlBasic.
-From OTV Require Import Lib.Tac Params VecModel CpqModel RwModel ForModel AllotModel MallocModel PipeModel QueueModel BqModel ReduceModel HashModel SolModel BufModel LimModel FnModel PullModel MonModel Mon1Model DequeModel ExcModel SuspendModel OnceModel OnceConf EtsModel SkipModel JoinModel RvecModel.
+From OTV Require Import Lib.Tac Params VecModel CpqModel RwModel ForModel AllotModel MallocModel PipeModel QueueModel BqModel ReduceModel HashModel SolModel BufModel LimModel FnModel PullModel MonModel Mon1Model DequeModel ExcModel SuspendModel OnceModel OnceConf EtsModel SkipModel JoinModel JoinRModel RvecModel.
 Extraction Language OCaml.
 Extraction "model.ml"
   Z.add Z.mul Z.sub Z.div_eucl Z.compare Z.of_nat
   run_vec run_vec_intcast run_segidx
-  run_cpq run_rw run_simple run_strided run_allot run_msizes run_mseq run_llo run_guards run_car run_pipebuf run_cpqf run_qidx run_bq run_reduce run_dreduce run_hash run_sol run_buf run_lim run_fnode run_pull run_mon run_mon1 run_deque run_exc run_suspend run_suspconf run_once run_onceconf run_ets run_etsseq run_skip run_join run_rvec.
+  run_cpq run_rw run_simple run_strided run_allot run_msizes run_mseq run_llo run_guards run_car run_pipebuf run_cpqf run_qidx run_bq run_reduce run_dreduce run_hash run_sol run_buf run_lim run_fnode run_pull run_mon run_mon1 run_deque run_exc run_suspend run_suspconf run_once run_onceconf run_ets run_etsseq run_skip run_join run_joinr run_rvec.
